@@ -186,7 +186,7 @@ def resolvers2(PC):
             return cnt == 2 and P == "strict"
         if cnt == 0:
             # forward shift by the gap length, stated in local coordinates: the skipped local time moved by (offset after - offset before)
-            loc = daycal.days_of(r.date) * NPD + r.nanosecond_of_day
+            loc = daycal.days_of(r.date) * NPD + r.time_of_day.nanosecond_of_day
             return P == "lenient" and loc == L + (o1 - o0) * NS and r.offset.seconds == o1 and r.zone is zone
         got = _zdt_total(r)
         if cnt == 1:
